@@ -81,6 +81,13 @@ class TD(typing.TypedDict):
     x: int
 class TDN(typing.TypedDict, total=False):
     x: int
+class TDMany(typing.TypedDict):
+    zeta: int
+    alpha: str
+    mid: typing.NotRequired[float]
+    beta: int
+    omega: typing.NotRequired[str]
+    gamma: bytes
 class Plain:
     a: int
     def __init__(self, a): self.a = a
@@ -169,7 +176,7 @@ def catalogue():
         add(c.__name__, c)
     for n in ("DC", "FDC", "SDC", "NT", "CNT", "TD", "TDN", "Plain", "Empty", "Color", "Level", "Tag", "MyStr", "MyInt", "MyList", "MyDict",
               "MyDate", "MyTuple", "SubDC", "MyMapping", "MyIter", "Box", "Page", "IntPage", "TDReq", "TDInh", "GDC", "GFDC", "GNT",
-              "SubNT", "GList", "CallDC", "CallPlain"):
+              "SubNT", "GList", "CallDC", "CallPlain", "TDMany"):
         add(n, g[n])
     add("Page[int]", g["Page"][int]); add("GDC[int]", g["GDC"][int]); add("GNT[int]", g["GNT"][int]); add("GList[int]", g["GList"][int])
     add("generator", type(x for x in ()))
@@ -515,13 +522,14 @@ def run(ctx: Ctx) -> Outcome:
         b, _ = ask(lambda x: str(inspection.cached_signature(x)), o)
         events.append({"ev": "accessor", "expect": expect, "got": a, "again": b})
         meta.append({"p": "signature", "obj": n, "exc": exc or ""})
-    for n in ("TD", "TDN", "TDReq", "TDInh", "Page"):
+    for n in ("TD", "TDN", "TDReq", "TDInh", "Page", "TDMany"):
         o = objs[n][0]
-        expect = show((sorted(typing.get_type_hints(o)), sorted(o.__required_keys__)))
+        # (names in declaration order -- the order typing.get_type_hints gives --, and which of them are required)
+        expect = show((list(typing.get_type_hints(o)), sorted(o.__required_keys__)))
 
         def td(x):
             ps = inspection.signature(x).parameters
-            return show((sorted(ps), sorted(k for k, p in ps.items() if p.default is inspect.Parameter.empty)))
+            return show((list(ps), sorted(k for k, p in ps.items() if p.default is inspect.Parameter.empty)))
         a, exc = ask(td, o)
         b, _ = ask(td, o)
         events.append({"ev": "accessor", "expect": expect, "got": a, "again": b})
